@@ -214,17 +214,19 @@ def childIds (o : Options) (parents : List ParentV) : List Nat :=
   (parents.flatMap fun p => p.refs.filterMap fun (f, annotated) =>
     if annotated ∧ ¬ o.keeps f then none else some f).eraseDups
 
+/-- one comparison key of `updatesSortIndex.Less` -/
+def keyOf (k : String) (u : Update) : Int :=
+  match k with
+  | "index" => u.index
+  | "timestamp" => u.ts
+  | "version" => u.version
+  | _ => 0
+
 /-- key comparison of `updatesSortIndex.Less`, from the regenerated key list -/
-def keyLess (keys : List String) (a b : Update) : Bool :=
-  match keys with
-  | [] => false
-  | k :: rest =>
-    let (x, y) : Int × Int := match k with
-      | "index" => (a.index, b.index)
-      | "timestamp" => (a.ts, b.ts)
-      | "version" => (a.version, b.version)
-      | _ => (0, 0)
-    if x < y then true else if y < x then false else keyLess rest a b
+def keyLess : List String → Update → Update → Bool
+  | [], _, _ => false
+  | k :: rest, a, b =>
+    if keyOf k a < keyOf k b then true else if keyOf k b < keyOf k a then false else keyLess rest a b
 
 def insertSorted (less : Update → Update → Bool) (u : Update) : List Update → List Update
   | [] => [u]
